@@ -187,7 +187,7 @@ func (g c07Gen) bytes(n int) []byte {
 func (g c07Gen) popts() udp.ParseOptions {
 	mx := []uint32{1, 50, 100, 100, 100, 1<<32 - 1, 0}[g.rng.Intn(7)]
 	df := []uint32{50, 50, 0, 7, 1<<32 - 1}[g.rng.Intn(5)]
-	return udp.ParseOptions{AllowIPSpoofing: g.rng.Intn(5) == 0, MaxNumWant: mx, DefaultNumWant: df}
+	return udp.ParseOptions{AllowIPSpoofing: g.rng.Intn(3) == 0, MaxNumWant: mx, DefaultNumWant: df}
 }
 
 func (g c07Gen) src() ([]byte, bool) {
@@ -323,9 +323,27 @@ func (g c07Gen) announce(connID []byte, v6 bool, event uint32) []byte {
 		}
 	}
 	binary.BigEndian.PutUint32(p[80:84], event)
-	if r.Intn(3) == 0 { // IP field zero = "use the source address"
+	switch r.Intn(6) {
+	case 0, 1: // IP field zero = "use the source address"
 		for i := 84; i < n-10; i++ {
 			p[i] = 0
+		}
+	case 2: // ALMOST zero: one non-zero byte anywhere in the field, or zero but for the tail (::1, ::ffff:a.b.c.d, ::a.b.c.d)
+		for i := 84; i < n-10; i++ {
+			p[i] = 0
+		}
+		switch r.Intn(4) {
+		case 0:
+			p[84+r.Intn(n-10-84)] = byte(1 + r.Intn(255))
+		case 1:
+			p[n-11] = 1
+		case 2:
+			copy(p[n-14:n-10], g.bytes(4))
+			if v6 {
+				p[n-16], p[n-15] = 0xff, 0xff
+			}
+		default:
+			copy(p[n-14:n-10], g.bytes(4))
 		}
 	}
 	nw := []uint32{0, 1, 49, 50, 51, 99, 100, 101, 1<<32 - 1, 1 << 31, r.Uint32()}[r.Intn(11)]
